@@ -158,8 +158,9 @@ func (h *Handler) resultForRows(ctx *Ctx, iter Iter, callback func(*Result, bool
 					case <-ctx.Done():
 						return context.Cause(ctx)
 					case resChan <- res:
+					default: // BAD (P4): when the consumer is slow the batch is reset without having been sent
 					}
-					res = nil // BAD (P4): reset outside the case that sent it (also after cancellation)
+					res = nil
 				}
 			}
 		}
